@@ -96,7 +96,7 @@ def check(ctx):
     KNOWN = set(SENDS) | {"_write", "getOptionState", "enableLocal", "enableRemote", "disableLocal", "disableRemote", "applicationDataReceived",
                           "commandReceived", "negotiate", "unhandledCommand", "unhandledSubnegotiation", "requestNegotiation", "connectionLost",
                           "dataReceived"} | set(REQUESTERS) | {d for d, _, _ in MAPS.values()}
-    norm = Normaliser(mod, ["Telnet", "TelnetTransport"], KNOWN)
+    norm = Normaliser(mod, ["Telnet", "TelnetTransport"], KNOWN, const_dispatch=True)
     V = norm.view
     cassign = class_assigns(cls)
     handler_fns = {}        # function name -> (map, key)
